@@ -79,6 +79,12 @@ static void sclr(void *p, void *priv)
     for (i = 0; i < npre; i++) { int t = tab_of_d(pre_d[i]); if (t >= 0 && tab[t].m == p) { ev_add("[\"clr\",%d]", i + 1); return; } }
     ev_add("[\"clr\",%d]", NEWIDX);
 }
+/* a clear callback that calls back into the library: it resets weak pointer W1 */
+static void sclr2(void *p, void *priv)
+{
+    sclr(p, priv);
+    cstl_weak_ptr_reset(&W[1]);
+}
 static void uclr(void *p, void *priv)
 {
     int i;
@@ -187,7 +193,7 @@ static void drv_apply(const vop_t *op, jb_t *res)
     switch (op->k) {
     case 0:
         a_begin((unsigned long)a[2]);
-        cstl_shared_ptr_alloc(&S[a[0]], a[3] ? 0 : 16, a[1] ? sclr : NULL);
+        cstl_shared_ptr_alloc(&S[a[0]], a[3] ? 0 : 16, a[1] == 2 ? sclr2 : a[1] ? sclr : NULL);
         a_end();
         if (ntab && tab[ntab - 1].d == new_d) tab[ntab - 1].clr = a[1];
         jb_puts(res, ",\"ret\":0");
@@ -241,7 +247,7 @@ static void drv_opjson(const vop_t *op, jb_t *b)
 {
     const int *a = op->a;
     switch (op->k) {
-    case 0: jb_printf(b, "\"op\":\"salloc\",\"s\":%d,\"clr\":%s,\"ok\":[%s,%s],\"zero\":%s", a[0], a[1] ? "true" : "false",
+    case 0: jb_printf(b, "\"op\":\"salloc\",\"s\":%d,\"clr\":%d,\"ok\":[%s,%s],\"zero\":%s", a[0], a[1],
                       (a[2] & 1) ? "false" : "true", (a[2] & 2) ? "false" : "true", a[3] ? "true" : "false"); break;
     case 1: jb_printf(b, "\"op\":\"share\",\"e\":%d,\"n\":%d", a[0], a[1]); break;
     case 2: jb_printf(b, "\"op\":\"sswap\",\"a\":%d,\"b\":%d", a[0], a[1]); break;
@@ -278,8 +284,8 @@ static void drv_ser(jb_t *b)
         a_blk_t *db = a_find(pre_d[i]), *mb = t >= 0 && tab[t].m ? a_find(tab[t].m) : NULL;
         size_t hard = 0, soft = 0;
         if (db && db->live && db->n >= 2 * sizeof(size_t)) { hard = ((size_t *)pre_d[i])[0]; soft = ((size_t *)pre_d[i])[1]; } else bad = 1;
-        jb_printf(b, "%s{\"hard\":%ld,\"soft\":%ld,\"mem\":%s,\"clr\":%s}", i ? "," : "", hard < 1000 ? (long)hard : -1L, soft < 1000 ? (long)soft : -1L,
-                  mb && mb->live ? "true" : "false", t >= 0 && tab[t].clr && mb && mb->live ? "true" : "false");
+        jb_printf(b, "%s{\"hard\":%ld,\"soft\":%ld,\"mem\":%s,\"clr\":%d}", i ? "," : "", hard < 1000 ? (long)hard : -1L, soft < 1000 ? (long)soft : -1L,
+                  mb && mb->live ? "true" : "false", t >= 0 && mb && mb->live ? tab[t].clr : 0);
     }
     jb_puts(b, "],\"up\":[");
     for (i = 1; i <= NU; i++) {
@@ -298,7 +304,7 @@ static int drv_enum(vop_t *ops, int max)
     snapshot();
     for (s = 1; s <= NS; s++) {
         int room = npre < MAXALLOC || (raw_ptr(&S[s].data) != NULL);
-        for (c = 0; c < 2 && room; c++) { ADD(0, s, c, 0, 0); if (FAULTS) { ADD(0, s, c, 1, 0); ADD(0, s, c, 2, 0); } }
+        for (c = 0; c < (NW >= 1 ? 3 : 2) && room; c++) { ADD(0, s, c, 0, 0); if (FAULTS) { ADD(0, s, c, 1, 0); ADD(0, s, c, 2, 0); } }
         ADD(0, s, 0, 0, 1);
         for (t = 1; t <= NS; t++) { ADD(1, s, t, 0, 0); if (t > s) ADD(2, s, t, 0, 0); }
         ADD(3, s, 0, 0, 0); ADD(4, s, 0, 0, 0); ADD(5, s, 0, 0, 0);
@@ -333,7 +339,7 @@ static int drv_random(unsigned long (*rnd)(void), vop_t *op)
     int u = NU ? 1 + (int)(rnd() % (unsigned)NU) : 0, u2 = NU ? 1 + (int)(rnd() % (unsigned)NU) : 0;
     snapshot();
     if (ntab > MAXA - 4 || a_nblk > A_MAX - 8) return 0;      /* tables full: end this walk */
-    if (r < 14 && (npre < MAXALLOC || raw_ptr(&S[s].data))) { op->k = 0; op->a[0] = s; op->a[1] = (int)(rnd() & 1); op->a[2] = FAULTS && rnd() % 6 == 0 ? 1 + (int)(rnd() & 1) : 0; op->a[3] = rnd() % 12 == 0; }
+    if (r < 14 && (npre < MAXALLOC || raw_ptr(&S[s].data))) { op->k = 0; op->a[0] = s; op->a[1] = (int)(rnd() % (NW >= 1 ? 3 : 2)); op->a[2] = FAULTS && rnd() % 6 == 0 ? 1 + (int)(rnd() & 1) : 0; op->a[3] = rnd() % 12 == 0; }
     else if (r < 30) { op->k = 1; op->a[0] = s; op->a[1] = t; }
     else if (r < 36 && s != t) { op->k = 2; op->a[0] = s; op->a[1] = t; }
     else if (r < 50) { op->k = 3; op->a[0] = s; }
